@@ -710,6 +710,131 @@ CLI_ONE_IN = 6  # share of the cases that also go through the commands (pure fun
 CLI_REFUSE_ONE_IN = 2  # ... of the configurations that must be refused (about a tenth of all cases; a refusal costs little)
 
 
+# ------------------------------------------------------------------ part: named image kinds (`uboot:`, `atf:`, `tee:`, ...)
+# A family's database record gives defaults (load address, core, start CPU, ...) for the images a typical boot chain holds; the
+# configuration then names only the file.  Oracle: such an entry means the same as the generic entry (`image_path:` + every
+# attribute spelled out from the database, read by the harness's own YAML walk): byte-identical unsigned images; the walker
+# accepts the image, the entry holds the database's load address / core and its bytes start with the file's bytes.
+_TEMPLATE_KEYS = ["upower", "spl", "oei_tcm", "system_manager", "cortex_m33_2_app", "cortex_m7_app", "cortex_m7_2_app", "atf", "uboot", "tee"]
+_TEMPLATE_ATTRS = ["image_offset", "load_address", "entry_point", "core_id", "image_type", "is_encrypted", "boot_flags", "meta_data_start_cpu_id",
+                   "meta_data_mu_cpu_id", "meta_data_start_partition_id", "hash_type", "gap_after_image", "image_size_alignment"]
+
+
+def _template_tuples() -> list[dict]:
+    if "templates" not in _STATE:
+        db = dbenum.load()
+        out = []
+        for dev, rev, f in db.tuples("ahab"):
+            keys = [k for k in _TEMPLATE_KEYS if k in (f.get("extra_images") or []) and ("%s_load_address" % k) in f and ("%s_core_id" % k) in f]
+            if keys:
+                out.append({"dev": dev, "rev": rev, "keys": keys, "db": {a: f[a] for a in f if any(a.startswith(k + "_") for k in keys)}})
+        _STATE["templates"] = out
+    return _STATE["templates"]
+
+
+def _template_cases():
+    def per(t):
+        entry = st.fixed_dictionaries({
+            "key": st.sampled_from(t["keys"]), "size": st.one_of(st.integers(1, 3000), st.sampled_from([1, 16, 1024, 1025, 4096, 0x2000])),
+            "seed": st.binary(min_size=4, max_size=4),
+            # an attribute given next to the file overrides the database's value
+            "override": st.one_of(st.none(), st.none(), st.fixed_dictionaries({"load_address": st.integers(0, (1 << 40) - 1).map(lambda x: x & ~0xF)}),
+                                  st.fixed_dictionaries({"meta_data_start_cpu_id": st.integers(0, 7)}), st.fixed_dictionaries({"hash_type": st.sampled_from(["sha256", "sha512"])})),
+        })
+        return st.fixed_dictionaries({
+            "dev": st.just(t["dev"]), "rev": st.just(t["rev"]), "tm": st.sampled_from(["standard", "standard", "serial_downloader", "nand_2k"]),
+            "entries": st.lists(entry, min_size=1, max_size=3, unique_by=lambda e: e["key"]),
+            "generic_first": st.booleans(),
+        })
+
+    tuples = _template_tuples()
+    if not tuples:
+        raise HarnessError("no family of the database lists named AHAB images (extra_images)")
+    return st.sampled_from(tuples).flatmap(per)
+
+
+def _num(v):
+    return int(str(v).replace("_", ""), 0) if not isinstance(v, int) else v
+
+
+def run_templates(case, o: Oracle) -> None:
+    from spsdk.image.ahab.ahab_image import AHABImage
+
+    t = next(x for x in _template_tuples() if x["dev"] == case["dev"] and x["rev"] == case["rev"])
+    tt = _tuple(case["dev"], case["rev"])
+    wd = os.path.join(_wdir(), "tmpl")
+    shutil.rmtree(wd, ignore_errors=True)
+    os.makedirs(wd)
+    named, generic, want = [], [], []
+    for i, e in enumerate(case["entries"]):
+        k = e["key"]
+        data = _stretch(bytes(e["seed"]), e["size"])
+        path = _write(os.path.join(wd, "%s_%d.bin" % (k, i)), data)
+        rec = {k: path}
+        rec.update(e["override"] or {})
+        named.append(rec)
+        g = {"image_path": path}
+        for a in _TEMPLATE_ATTRS:
+            if "%s_%s" % (k, a) in t["db"]:
+                g[a] = t["db"]["%s_%s" % (k, a)]
+        g.setdefault("entry_point", g["load_address"])
+        g.setdefault("image_type", "executable")
+        g.setdefault("hash_type", "sha384")
+        g.update(e["override"] or {})
+        if e["override"] and "load_address" in e["override"] and "%s_entry_point" % k not in t["db"]:
+            g["entry_point"] = e["override"]["load_address"]
+        generic.append(g)
+        want.append({"key": k, "data": data, "load": _num(g["load_address"]), "entry": _num(g["entry_point"]), "core": tt["cores"][str(g["core_id"])],
+                     "hash": str(g["hash_type"]).lower()})
+        o.label("named:" + k)
+    o.label("dev:" + case["dev"], "tm:" + case["tm"], "named_images:%d" % len(named))
+    if any(e["override"] for e in case["entries"]):
+        o.label("named_override")
+    o.nontrivial(True)
+    o.key((case["dev"], case["rev"], case["tm"], tuple((e["key"], e["size"], bytes(e["seed"]).hex(), repr(e["override"])) for e in case["entries"])))
+
+    def build(images: list) -> bytes:
+        cfg = {"family": case["dev"], "revision": case["rev"], "target_memory": case["tm"], "output": "ahab.bin",
+               "containers": [{"container": {"srk_set": "none", "images": [dict(r) for r in images]}}]}
+        img = AHABImage.load_from_config(cfg, search_paths=[wd])
+        img.update_fields()
+        return bytes(img.export())
+
+    a = b = None
+    order = [("generic", generic), ("named", named)] if case["generic_first"] else [("named", named), ("generic", generic)]
+    out = {}
+    for name, images in order:
+        with o.spsdk("named_images", "build_" + name):
+            out[name] = build(images)
+    a, b = out.get("named"), out.get("generic")
+    if a is None:
+        return
+    if "uboot" not in [e["key"] for e in case["entries"]] and b is not None:
+        # (the `uboot:` entry appends a tool signature to the file: the generic entry cannot say the same)
+        if a != b:
+            n = next((i for i in range(min(len(a), len(b))) if a[i] != b[i]), min(len(a), len(b)))
+            o.fail("named_images", "differs_from_generic_entry", "first difference at %#x (lengths %d / %d); named: %s generic: %s" % (n, len(a), len(b), a[n : n + 16].hex(), b[n : n + 16].hex()))
+    walked = None
+    try:
+        walked = A.walk(a, tt["max_cnt"], {}, allow_empty_hash=tt["allow_empty_hash"])
+    except A.Reject as exc:
+        o.fail("named_images", "walker_reject:" + _kind(str(exc)), str(exc))
+    if walked:
+        imgs = walked[0]["images"]
+        if o.eq("named_images", "image_count", len(imgs), len(want)):
+            for im, w in zip(imgs, want):
+                tag = w["key"]
+                o.eq("named_images", tag + ":load_address", im["load"], w["load"])
+                o.eq("named_images", tag + ":entry_point", im["entry"], w["entry"])
+                o.eq("named_images", tag + ":core", im["core"], w["core"])
+                o.eq("named_images", tag + ":hash_type", im["hash_alg"], w["hash"])
+                got = a[im["offset"] : im["offset"] + im["size"]]
+                o.check("named_images", got[: len(w["data"])] == w["data"], tag + ":bytes", "the image region does not start with the file's bytes")
+                if tag != "uboot":
+                    o.check("named_images", not any(got[len(w["data"]) :]), tag + ":padding", "bytes after the file's bytes are not zero padding")
+
+
+
 def _write_yaml(cfg: dict, wd: str) -> str:
     import yaml
 
@@ -1045,5 +1170,6 @@ def parts(ctx):
     return [
         EnumPart("db_tuples", lambda tier: len(_combos()), _combo_case, run_case),
         HypPart("images", _cases(ctx.quick), run_case, {"quick": 320, "thorough": 20000}),
+        HypPart("named_images", _template_cases(), run_templates, {"quick": 96, "thorough": 6000}),
         pins.part(["ahab"], 400),  # container / image type and core numbers, alignments, load addresses per device
     ]
